@@ -62,9 +62,13 @@ theorem run_consistent (ops : List Op) (d d' : DF) (h : d.Consistent) (ho : ∀ 
 arithmetic-progression length -/
 theorem sources_consistent (names : List String) (rows : List Row) (d : DF) (start stop : Int) (step : Nat) :
     (create names rows = .ok d → d.Consistent ∧ d.names = names ∧ d.rows = rows) ∧
-    (range start stop step).Consistent ∧ (range start stop step).names = ["id"] ∧
-    (0 < step → ((range start stop step).rows.length : Int) = ((stop - start).toNat + step - 1) / step) := by
-  refine ⟨fun hc => ?_, ?_, rfl, fun hs => ?_⟩
+    -- `range` of an empty range (stop ≤ start) or with step 0 raises in the code (the schema is inferred from the data;
+    -- `range()` rejects a zero step): the claims about `range` are made for non-empty ranges with a positive step only
+    (start < stop → 0 < step →
+      (range start stop step).Consistent ∧ (range start stop step).names = ["id"] ∧
+      (range start stop step).rows ≠ [] ∧
+      ((range start stop step).rows.length : Int) = ((stop - start).toNat + step - 1) / step) := by
+  refine ⟨fun hc => ?_, fun hlt hs => ⟨?_, rfl, ?_, ?_⟩⟩
   · unfold create at hc
     split at hc
     · rename_i hall
@@ -75,6 +79,15 @@ theorem sources_consistent (names : List String) (rows : List Row) (d : DF) (sta
     unfold range at hr
     obtain ⟨i, _, rfl⟩ := List.mem_map.mp hr
     rfl
+  · unfold range
+    rw [if_neg (Nat.ne_of_gt hs)]
+    intro h
+    have hl := congrArg List.length h
+    simp only [List.length_map, List.length_range, List.length_nil] at hl
+    have h1 : 1 ≤ (stop - start).toNat := by omega
+    have : step ≤ (stop - start).toNat + step - 1 := by omega
+    have := Nat.div_pos this hs
+    omega
   · unfold range
     rw [if_neg (Nat.ne_of_gt hs)]
     simp only [List.length_map, List.length_range]
